@@ -146,7 +146,7 @@ def run_universe(R, seed, uid, tier):
                 if any(refflat.has_unspellable_items(ir, t, v) for (_, t), v in zip(md['args'], args)):
                     R.skip('array item without any member has no spelling in a query string')
                     continue
-                if any(refflat.unspellable_none(ir, t, refflat.fnorm(ir, t, v)) for (_, t), v in zip(md['args'], args)):
+                if any(refflat.unspellable_none(ir, t, refflat.fnorm(ir, t, v)) or refflat.unspellable_none(ir, t, v) for (_, t), v in zip(md['args'], args)):
                     R.skip('null for a mandatory member has no spelling in a query string')
                     continue
                 sparse = (not strict) and rng.random() < .5
